@@ -84,6 +84,29 @@ class TableRow(Mapping[str, object]):
     def __len__(self) -> int:
         return len(self._keys)
 
+    # Iterating this object steps through the items of the loop it belongs to, for
+    # the tag that owns it. As a mapping it is its helper variables: the views that
+    # `Mapping` derives from `__iter__` would advance the loop and look items up as
+    # keys, for a template that loops over it or compares it with something.
+
+    def keys(self) -> Any:  # type: ignore[override]
+        return sorted(self._keys)
+
+    def values(self) -> Any:  # type: ignore[override]
+        return [self[key] for key in self.keys()]
+
+    def items(self) -> Any:  # type: ignore[override]
+        return [(key, self[key]) for key in self.keys()]
+
+    def __contains__(self, key: object) -> bool:
+        return key in self._keys
+
+    def __eq__(self, other: object) -> bool:
+        return self is other
+
+    def __hash__(self) -> int:
+        return id(self)
+
     def __iter__(self) -> Iterator[Any]:
         return self
 
